@@ -87,6 +87,14 @@ add("C16", "model_checking",
     "explicit-state BFS over operation histories replayed on the real objects vs a reference derivation model",
     "DESIGN.md section 5 C16")
 
+add("C20", "model_checking",
+    "Explicit-state breadth-first search over call / register / unregister histories of programs annotated with user class predicates and "
+    "order / subtype hooks; counters on every hook and resolution entry point must not move on any call that already succeeded "
+    "since the last change, including its nested recurse / call_next lookups.",
+    "Trusted: counters attached from outside (module attribute rebinding); canonical state snapshot (tested by re-expansion).",
+    "explicit-state BFS over operation histories on the real objects with a zero-delta invariant on instrumentation counters",
+    "DESIGN.md section 5 C20")
+
 ALL = [f"C{i:02d}" for i in range(1, 21)]
 REASON_PENDING = "check not built yet in this round (planned: DESIGN.md section 5); not claimed until its machinery exists"
 
